@@ -47,6 +47,10 @@ func runC02(a *Analyzer, r *Results) {
 			}
 			nAccept++
 			kind := mode.name
+			if val.Key() != tNil.Key() {
+				// the verdict is delegated to the returned expression: acceptance means it is nil
+				ev.Assume(ErrNil(val))
+			}
 			ev.Require("V1", pr, "acceptance only under a live context", kind, ErrNil(Call("context.Err", ctx)))
 			ev.Require("V2", pr, "acceptance only for a non-nil block", kind, Ne(block, tNil))
 			ev.Require("V3", pr, "acceptance only for non-empty proof bytes", kind, Ne(Len(pb), Const("0")))
